@@ -220,7 +220,7 @@ Fixpoint run_ops (fuel : nat) (s : list Z) (objs : list (nat * drv)) (cur : nat)
     | [] => [-2]
     | 90 :: n :: t =>                     (* replace the loss oracle *)
       let '(fs, r) := take_fates (Z.to_nat n) t in
-      run_ops k r objs cur (mkWorld (radios w) fs (air w))
+      run_ops k r objs cur (mkWorld (radios w) fs (air w) (clock w))
     | 91 :: i :: p :: t =>                (* inject a received payload into radio i *)
       match take_bytes t with
       | Some (b, r) =>
@@ -231,13 +231,13 @@ Fixpoint run_ops (fuel : nat) (s : list Z) (objs : list (nat * drv)) (cur : nat)
     | 92 :: o :: t => run_ops k t objs (Z.to_nat o) w      (* select the acting object *)
     | 93 :: t =>                          (* dump and clear the air log *)
       (-4) :: Z.of_nat (length (air w)) :: flat_map put_airlog (air w)
-      ++ run_ops k t objs cur (mkWorld (radios w) (oracle w) [])
+      ++ run_ops k t objs cur (mkWorld (radios w) (oracle w) [] (clock w))
     | code :: t =>
       let '(me, d) := nth cur objs (0%nat, init_drv) in
       match api_call me code t d w with
       | None => [-3; code]
       | Some (o, d', w', rest) =>
-        (-1) :: o ++ (-5) :: snap_all w' ++ (-6) :: dump_drv d'
+        (-1) :: o ++ (-5) :: Z.of_N (clock w') :: snap_all w' ++ (-6) :: dump_drv d'
         ++ run_ops k rest (set_nth_obj objs cur (me, d')) cur w'
       end
     end
@@ -263,7 +263,7 @@ Definition run_rf24 (req : list Z) : list Z :=
       | Some (ro, ops) =>
         let w0 := new_world (map boolz plus) [] in
         let '(objs, w1, couts) := construct_all (map Z.to_nat ro) w0 in
-        couts ++ (-5) :: snap_all w1 ++ (-6) :: flat_map (fun o => dump_drv (snd o)) objs
+        couts ++ (-5) :: Z.of_N (clock w1) :: snap_all w1 ++ (-6) :: flat_map (fun o => dump_drv (snd o)) objs
         ++ run_ops (length ops + 1) ops objs 0 w1
       | None => [-3]
       end
